@@ -269,6 +269,23 @@ func (w *workerState) handle(c Cmd) (r Resp) {
 		}
 		r.Done = true
 		return
+	case "l1evict":
+		stage = "l1evict"
+		l2 := sop.GetL2Cache(w.options("R"))
+		if l2 == nil {
+			r.HarnessErr = "HARNESS-ERROR: no L2 cache factory registered"
+			return
+		}
+		l1 := cache.GetGlobalL1Cache(l2)
+		var ids []sop.UUID
+		for i := 0; i < 4*cache.DefaultMaxCapacity+8; i++ {
+			id := sop.NewUUID()
+			ids = append(ids, id)
+			l1.SetNodeToMRU(ctx, id, &btree.Node[int, string]{ID: id}, time.Minute)
+		}
+		l1.DeleteNodes(ctx, ids)
+		r.Done = true
+		return
 	case "create":
 		stage = "create"
 		tx, err := infs.NewTransaction(ctx, w.options("W"))
